@@ -1,4 +1,16 @@
-"""Concrete replay search against the real crate (never decides; only turns a failed obligation into an input)."""
+"""Replay of a recorded violation.
+
+Verus gives no counterexample, so for Verus obligations the replay re-generates the obligations named in the replay file
+from /repo's current working tree and re-runs the verifier on them; for Kani obligations the stored concrete-playback test
+(the verifier's counterexample) was already executed against the real function when the violation was reported, and the
+replay re-runs the harness. No separate small-scope search against the public API is built (see DESIGN.md section 8)."""
+import json
+import os
+import re
+import subprocess
+import sys
+
+ROOT = os.path.dirname(os.path.dirname(os.path.abspath(__file__)))
 
 
 def search(prop, failed_ids, work):
@@ -6,5 +18,20 @@ def search(prop, failed_ids, work):
 
 
 def rerun(prop, path):
-    print('replay not yet implemented for', prop, path)
-    return 2
+    doc = json.load(open(path))
+    want = [o['id'] for o in doc.get('failed_obligations', [])]
+    p = subprocess.run([os.path.join(ROOT, 'check'), prop, '--tier', 'quick'], stdout=subprocess.PIPE, stderr=subprocess.STDOUT, text=True)
+    still = set(re.findall(r'FAILED obligation (\S+)', p.stdout))
+    rc = 0
+    for oid in want:
+        if oid in still:
+            print('REPLAY: obligation %s still fails on the current tree' % oid)
+            rc = 1
+        else:
+            print('REPLAY: obligation %s is discharged on the current tree' % oid)
+    if doc.get('failing_input'):
+        print('REPLAY: recorded counterexample (Kani concrete playback):')
+        print(doc['failing_input'].get('playback_test', ''))
+    if rc:
+        print('VIOLATION property=%s replay=%s%s' % (prop, path, '' if doc.get('failing_input') else ' no-failing-input-found'))
+    return rc
